@@ -922,6 +922,8 @@ HAND_OK_XML = [
     ["<r><a>1</a><b>x</b><a>2</a><b>y</b><c>z</c></r>"],
     ['<p:r xmlns:p="urn:p" xmlns:q="urn:q" q:at="1" at2="v"><p:a>1</p:a><q:b>x</q:b><c>z</c></p:r>'],
     ["<r><p>hello <b>x</b> world</p></r>"],
+    ["<r><p><b/> tail only</p><p><b>x</b></p></r>"],
+    ["<r><p><b/><b/> tail<i>x</i></p><p>lead <i>y</i></p></r>"],
     ["<r><a>1</a><o>true</o></r>", "<r><a>2</a></r>"],
     ['<r><item id="1"><n>x</n></item><item id="2"><n>y</n><m>2.5</m></item></r>'],
     [f'<r xmlns:xsi="{S.XSI}"><a xsi:nil="true"/><b>1</b></r>', "<r><a>5</a><b>1</b></r>"],
